@@ -33,7 +33,15 @@
 #include <stdlib.h>
 #include <unistd.h>
 #include <sys/types.h>
+#include <errno.h>
 #include <grp.h>
+
+
+
+/*
+ * Local defines
+ */
+#define   SNOOPY_DATASOURCE_GROUP_BUF_MAX_SIZE   1048576   // Stop enlarging the lookup buffer here
 
 
 
@@ -57,6 +65,7 @@ int snoopy_datasource_egroup (char * const resultBuf, size_t resultBufSize, __at
     char          *buffgr_gid     = NULL;
     long           buffgrsize_gid = 0;
     int            messageLength  = 0;
+    int            retVal         = 0;
 
     /* Allocate memory */
     buffgrsize_gid = sysconf(_SC_GETGR_R_SIZE_MAX);
@@ -68,8 +77,22 @@ int snoopy_datasource_egroup (char * const resultBuf, size_t resultBufSize, __at
         return snprintf(resultBuf, resultBufSize, "ERROR(malloc)");
     }
 
-    /* Try to get data */
-    if (0 != getgrgid_r(getegid(), &gr, buffgr_gid, buffgrsize_gid, &gr_gid)) {
+    /* Try to get data - an entry with a long member list needs a larger buffer than the suggested initial size */
+    while (ERANGE == (retVal = getgrgid_r(getegid(), &gr, buffgr_gid, buffgrsize_gid, &gr_gid))) {
+        char *biggerBuf;
+
+        if (buffgrsize_gid >= SNOOPY_DATASOURCE_GROUP_BUF_MAX_SIZE) {
+            break;
+        }
+        buffgrsize_gid *= 2;
+        biggerBuf = realloc(buffgr_gid, buffgrsize_gid);
+        if (NULL == biggerBuf) {
+            free(buffgr_gid);
+            return snprintf(resultBuf, resultBufSize, "ERROR(malloc)");
+        }
+        buffgr_gid = biggerBuf;
+    }
+    if (0 != retVal) {
         messageLength  = snprintf(resultBuf, resultBufSize, "ERROR(getgrgid_r)");
     } else {
         if (NULL == gr_gid) {
